@@ -1372,8 +1372,8 @@ func (g *G) funcletFunc() {
 	}
 	ok.Term = &am.Inst{Op: "ret"}
 	p := &am.Inst{Op: "cleanuppad", T: am.TToken, Name: g.localName("p"), ParentPad: none}
-	if g.chance("padargs", 1, 2) {
-		p.Args = []*am.Value{{K: am.VConst, C: &am.Const{K: am.CInt, T: am.I32, Int: big.NewInt(1)}}}
+	for k := g.rng("npadargs", 0, 3); k > 0; k-- {
+		p.Args = append(p.Args, &am.Value{K: am.VConst, C: &am.Const{K: am.CInt, T: am.I32, Int: big.NewInt(int64(k))}})
 	}
 	cl.Insts = append(cl.Insts, p)
 	if toCaller {
